@@ -723,10 +723,12 @@ pub fn deliver(w: &mut World, id: u64, label: &str) {
                 }
                 (Some(p), 1) => {
                     let v = &mut headers[p].1;
-                    let i = w.draws.draw(&format!("{label}/etag.pos"), v.len() as u64) as usize;
+                    // position drawn from a fixed range: the ETag's length depends on the DER
+                    // length of the signature, which must not influence the decision log
+                    let i = (w.draws.draw(&format!("{label}/etag.pos"), 128) as usize) % v.len().max(1);
                     // keep it a visible ASCII hex-ish char, but different
                     v[i] = if v[i] == b'0' { b'1' } else { b'0' };
-                    tamper = format!("etag_flip@{i}");
+                    tamper = "etag_flip".into();
                 }
                 (Some(p), 2) => {
                     let v = &mut headers[p].1;
